@@ -706,16 +706,26 @@ CMP_BIN = {'Gt', 'Ge', 'Lt', 'Le', 'Eq', 'Ne'}
 CMP_CALL = {'gt': 'Gt', 'ge': 'Ge', 'lt': 'Lt', 'le': 'Le', 'eq': 'Eq', 'ne': 'Ne'}
 
 
+SWAP = {'Gt': 'Lt', 'Lt': 'Gt', 'Ge': 'Le', 'Le': 'Ge', 'Eq': 'Eq', 'Ne': 'Ne'}
+
+
+def _orient(kind, a, b):
+    """canonical orientation: a literal operand goes to the right (`0.0 < x` is `x > 0.0`)"""
+    if a[0] == 'const' and b[0] != 'const':
+        return (SWAP[kind], b, a)
+    return (kind, a, b)
+
+
 def cmp_of(e):
     """recognise a comparison / float predicate: returns (kind, a, b) with refs stripped"""
     if e[0] == 'bin' and e[1] in CMP_BIN:
-        return (e[1], norm(e[2]), norm(e[3]))
+        return _orient(e[1], norm(e[2]), norm(e[3]))
     if e[0] == 'call':
         s = short(e[1])
         if s in CMP_CALL and len(e[2]) == 2 and ('PartialOrd' in e[1] or 'PartialEq' in e[1] or 'cmp::' in e[1] or 'partial_' in e[1] or True):
             # <&f64 as PartialOrd<&f64>>::gt(&a, &b) and friends
             if any(x in e[1] for x in ('cmp::PartialOrd', 'cmp::PartialEq', 'cmp::impls')):
-                return (CMP_CALL[s], norm(e[2][0]), norm(e[2][1]))
+                return _orient(CMP_CALL[s], norm(e[2][0]), norm(e[2][1]))
         if s in ('is_finite', 'is_nan', 'is_infinite') and 'f64' in e[1]:
             return ({'is_finite': 'IsFinite', 'is_nan': 'IsNan', 'is_infinite': 'IsInfinite'}[s], norm(e[2][0]), None)
         if s in ('is_empty', 'is_none', 'is_some', 'is_ok', 'is_err', 'contains', 'contains_key', 'all', 'any'):
